@@ -267,6 +267,11 @@ impl RepoHandle {
         let repo = repo.init(&Credentials::Masterkey(h.key.clone()), &KeyOptions::default(), cfg)?;
         Ok((h, repo))
     }
+    /// Options every harness repository is opened with: NO local cache (`~/.cache/rustic/<repo id>` would be created per
+    /// repository, reads of index / snapshot files would be served from there, repositories with equal ids would share entries).
+    pub fn default_opts() -> RepositoryOptions {
+        RepositoryOptions::default().no_cache(true)
+    }
     pub fn open_with(&self, opts: &RepositoryOptions) -> RusticResult<Repository<OpenStatus>> {
         Repository::new(opts, &self.backends())?.open(&Credentials::Masterkey(self.key.clone()))
     }
@@ -275,11 +280,40 @@ impl RepoHandle {
     pub fn open(&self) -> RusticResult<Repository<OpenStatus>> {
         self.open_with(&Self::default_opts())
     }
-    /// The local cache is OFF for harness repositories (it would litter ~/.cache/rustic and let repositories
-    /// with equal ids share cache entries); C19 builds its cached handles explicitly.
-    pub fn default_opts() -> RepositoryOptions {
-        RepositoryOptions::default().no_cache(true)
+}
+
+/// Added for C04/C08/C17: the same handle operations with the local cache switched off (`RepositoryOptions::no_cache`).
+/// With the default options every opened repository creates `~/.cache/rustic/<repo id>` and index / snapshot reads are
+/// served from there — tampering with the backend is then invisible and the cache directory grows with every case.
+pub fn nocache_opts() -> RepositoryOptions {
+    RepoHandle::default_opts()
+}
+
+impl RepoHandle {
+    pub fn init_nocache(be: MemBackend, hot: Option<MemBackend>, cfg: &ConfigOptions) -> RusticResult<(Self, Repository<OpenStatus>)> {
+        let key = MasterKey::new();
+        let h = Self { be, hot, key };
+        let repo = Repository::new(&nocache_opts(), &h.backends())?;
+        let repo = repo.init(&Credentials::Masterkey(h.key.clone()), &KeyOptions::default(), cfg)?;
+        Ok((h, repo))
     }
+    pub fn open_nocache(&self) -> RusticResult<Repository<OpenStatus>> {
+        self.open_with(&nocache_opts())
+    }
+}
+
+/// `backup` without the local cache.
+pub fn backup_nocache(h: &RepoHandle, src: &MemSource, opts: &BackupOptions, snap: SnapshotFile) -> RusticResult<SnapshotFile> {
+    let repo = h.open_nocache()?.to_indexed_ids()?;
+    repo.archive(opts, src, snap, &[PathBuf::from(SRC_ROOT)])
+}
+
+/// `check_errors` without the local cache.
+pub fn check_errors_nocache(h: &RepoHandle, read_data: bool) -> Option<usize> {
+    let repo = h.open_nocache().ok()?;
+    let opts = CheckOptions::default().read_data(read_data);
+    let res = repo.check(opts).ok()?;
+    Some(res.0.iter().filter(|(l, _)| format!("{l:?}") == "Error").count())
 }
 
 /// One entry of an in-memory source tree.  `path` is relative to the source root, components are raw bytes.
